@@ -77,11 +77,11 @@ func (w *World) lockOp(g *G, c *Cell, write bool, fin func()) *syncOp {
 	op := &syncOp{desc: "Lock"}
 	if write {
 		op.ready = func() bool { return !m.locked && m.readers == 0 }
-		op.exec = func() { m.locked = true; m.owner = g.id; fin() }
+		op.exec = func() { w.touch(c.id, true); m.locked = true; m.owner = g.id; fin() }
 	} else {
 		op.desc = "RLock"
 		op.ready = func() bool { return !m.locked }
-		op.exec = func() { m.readers++; fin() }
+		op.exec = func() { w.touch(c.id, true); m.readers++; fin() }
 	}
 	return op
 }
@@ -105,6 +105,7 @@ func registerSyncIntrinsics(m map[string]intrinsic) {
 			ms := w.mutex(c)
 			op := &syncOp{desc: "Unlock", ready: func() bool { return true }}
 			op.exec = func() {
+				w.touch(c.id, true)
 				if write {
 					if !ms.locked {
 						w.goPanic(g, "sync: unlock of unlocked mutex", nil)
@@ -156,6 +157,8 @@ func registerSyncIntrinsics(m map[string]intrinsic) {
 		}
 		first := &syncOp{desc: "Cond.Wait(enter)", ready: func() bool { return true }}
 		first.exec = func() {
+			w.touch(c.id, true)
+			w.touch(mc.id, true)
 			ms := w.mutex(mc)
 			if !ms.locked {
 				w.goPanic(g, "sync: unlock of unlocked mutex", nil)
@@ -165,6 +168,7 @@ func registerSyncIntrinsics(m map[string]intrinsic) {
 			cw := &condWaiter{g: g}
 			cs.waiters = append(cs.waiters, cw)
 			g.pend = &syncOp{desc: "Cond.Wait(parked)", ready: func() bool { return cw.signaled }, exec: func() {
+				w.touch(c.id, true)
 				g.pend = w.lockOp(g, mc, true, func() { fin(nil) })
 				g.pend.desc = "Cond.Wait(relock)"
 			}}
@@ -179,6 +183,7 @@ func registerSyncIntrinsics(m map[string]intrinsic) {
 			}
 			op := &syncOp{desc: "Cond.Signal", ready: func() bool { return true }}
 			op.exec = func() {
+				w.touch(c.id, true)
 				if cs := w.conds[c]; cs != nil {
 					for len(cs.waiters) > 0 {
 						cs.waiters[0].signaled = true
@@ -209,6 +214,7 @@ func registerSyncIntrinsics(m map[string]intrinsic) {
 		s := wgOf(w, c)
 		op := &syncOp{desc: fmt.Sprintf("WaitGroup.Add(%d)", delta), ready: func() bool { return true }}
 		op.exec = func() {
+			w.touch(c.id, true)
 			s.n += delta
 			if s.n < 0 {
 				w.goPanic(g, "sync: negative WaitGroup counter", nil)
@@ -246,6 +252,7 @@ func registerSyncIntrinsics(m map[string]intrinsic) {
 		s := wgOf(w, c)
 		op := &syncOp{desc: "WaitGroup.Wait", ready: func() bool { return true }}
 		op.exec = func() {
+			w.touch(c.id, true)
 			if s.n == 0 {
 				fin(nil)
 				return
@@ -253,6 +260,7 @@ func registerSyncIntrinsics(m map[string]intrinsic) {
 			ww := &wgWaiter{g: g}
 			s.waiters = append(s.waiters, ww)
 			g.pend = &syncOp{desc: "WaitGroup.Wait(parked)", ready: func() bool { return ww.released }, exec: func() {
+				w.touch(c.id, true)
 				if s.n != 0 {
 					w.goPanic(g, "sync: WaitGroup is reused before previous Wait has returned", nil)
 					return
@@ -268,6 +276,7 @@ func registerSyncIntrinsics(m map[string]intrinsic) {
 		if c == nil {
 			return
 		}
+		w.touch(c.id, true)
 		if w.onces[c] {
 			fin(nil)
 			return
@@ -282,6 +291,7 @@ func registerSyncIntrinsics(m map[string]intrinsic) {
 		if c == nil {
 			return
 		}
+		w.touch(c.id, true)
 		ps := w.pools[c]
 		if ps != nil && len(ps.items) > 0 && w.poolReuse {
 			v := ps.items[len(ps.items)-1]
@@ -305,6 +315,7 @@ func registerSyncIntrinsics(m map[string]intrinsic) {
 			fin(nil)
 			return
 		}
+		w.touch(c.id, true)
 		if w.poolReuse {
 			ps := w.pools[c]
 			if ps == nil {
@@ -330,6 +341,7 @@ func registerSyncIntrinsics(m map[string]intrinsic) {
 		if c == nil {
 			return
 		}
+		w.touch(c.id, false)
 		mo := smap(w, c)
 		if idx := w.mapFind(mo, args[1]); idx >= 0 {
 			fin(Tuple{mo.vals[idx], w.tt.True})
@@ -342,6 +354,7 @@ func registerSyncIntrinsics(m map[string]intrinsic) {
 		if c == nil {
 			return
 		}
+		w.touch(c.id, true)
 		mo := smap(w, c)
 		if idx := w.mapFind(mo, args[1]); idx >= 0 {
 			mo.vals[idx] = args[2]
@@ -356,6 +369,7 @@ func registerSyncIntrinsics(m map[string]intrinsic) {
 		if c == nil {
 			return
 		}
+		w.touch(c.id, true)
 		mo := smap(w, c)
 		if idx := w.mapFind(mo, args[1]); idx >= 0 {
 			mo.keys = append(append([]Value{}, mo.keys[:idx]...), mo.keys[idx+1:]...)
@@ -417,7 +431,11 @@ func (w *World) timeVal(ns *Term) Struct {
 func timeNs(v Value) *Term { return v.(Struct).f[1].(*Term) }
 
 func (w *World) now() *Term {
+	w.touch(clockID, true)
 	w.nowCount++
+	if w.clockStep > 0 {
+		return w.tt.BV(uint64(1<<50+w.nowCount*w.clockStep), 64)
+	}
 	t := w.tt.Sym(fmt.Sprintf("now#%d", w.nowCount), 64)
 	if w.lastNow == nil {
 		w.assume(w.tt.Cmp(OpUle, w.tt.BV(1<<50, 64), t))
@@ -510,6 +528,7 @@ func registerLibIntrinsics(m map[string]intrinsic) {
 		if t == nil {
 			return
 		}
+		w.touch(t.ch.id, true)
 		was := t.armed
 		t.armed = false
 		fin(w.tt.Bool(was))
@@ -519,6 +538,7 @@ func registerLibIntrinsics(m map[string]intrinsic) {
 		if t == nil {
 			return
 		}
+		w.touch(t.ch.id, true)
 		t.armed = false
 		fin(nil)
 	}
